@@ -186,6 +186,30 @@ func propC07(a *Analysis, r *Registry) {
 					}
 				}
 			}
+			// every return is an early decision, an infinite bracket end, or the bisection's upper end
+			other := 0
+			for _, rt := range fc.Ctx.Returns() {
+				if ex, isEx := rt.Results[0].(*ssa.Extract); isEx && ex.Tuple == call {
+					continue
+				}
+				v := fc.Val(rt.Results[0])
+				if v.Equal(lo) || v.Equal(hi) {
+					continue
+				}
+				early := false
+				func() {
+					defer func() { recover() }()
+					fc.ReachCond(rt.Block())
+					early = true
+				}()
+				if !early {
+					other++
+					r.Fail("B-C07 bisection", name+"/other-return", a.W.InstrPos(rt), "a path returns a value that is neither an end-point decision, an infinite bracket end, nor result 1 of bisectBool: "+clip(v.String(), 160))
+				}
+			}
+			if other == 0 {
+				r.OK("B-C07 bisection", name+"/other-return", where, "every return past the end-point decisions is a bracket end at infinity or the bisection's upper end")
+			}
 			if nInf == 2 {
 				r.OK("B-C07 bisection", name+"/infinite-brackets", where, "loX==-inf returns loX, hiX==+inf returns hiX, with the same loX/hiX that are handed to the bisection")
 			} else {
